@@ -295,9 +295,8 @@ def apply (info : Nat → EntInfo) (c : CC) : Op → CC × Res
       | some u => (c, .ent (if expired info u then none else some u))
   | .mapCmd ck k => ({ c with cmds := (ck, k) :: adel c.cmds ck }, .unit)
   | .invalidate k =>
-    match aget c.sessions k with
-    | none => (c, .bool false)
-    | some _ => ({ sessions := adel c.sessions k, cmds := c.cmds.filter (fun p => p.2 != k) }, .bool true)
+    -- fix D24: the mappings that lead to `k` go whether or not an entry is still filed under it
+    ({ sessions := adel c.sessions k, cmds := c.cmds.filter (fun p => p.2 != k) }, .bool (aget c.sessions k).isSome)
   | .gc =>
     let live := c.sessions.filter (fun p => !expired info p.2)
     ({ sessions := live, cmds := c.cmds.filter (fun p => (aget live p.2).isSome) }, .nat (c.sessions.length - live.length))
